@@ -335,6 +335,8 @@ def judge_msg(c):
     order     : R:q:0 lists ids in increasing order when all of q's ids have the same decimal length (< 2^63)
     phantom   : everything R:q returns was Added/Updated for q with that content
     deleted   : a copy whose Del was requested before a persist that completed, and that was not added again, is not in the engine
+    length    : GetQueueLength(q) = number of q's messages in the engine (judged right after a DUMP)
+    from      : IterateByQueueFromMsgID(q, id) from a stored id lists that id first (judged right after a DUMP)
     not-early : a relay of key k is preceded by a completed batch that Sets k, or k was Added and Del-requested before the
                 snapshot of this or an earlier persist (the add was cancelled: the message was already settled) (C05 store clause)
     Returns list of dict(pos, clause, what, triggers)."""
@@ -345,6 +347,7 @@ def judge_msg(c):
     del_pending, del_flushed, swapped_dels = set(), set(), set()
     add_count, first_is_add = {}, {}
     pending_a, pending_d, settled_ok = set(), set(), set()
+    fresh_dump = None     # engine keys of the last DUMP if nothing has changed the store since
     bunt = c.engine == "bunt"
 
     def trig(q):
@@ -359,6 +362,8 @@ def judge_msg(c):
         f = op.split(":")
         t = f[0]
         atoms = atoms_of_out(out)
+        if t in ("A", "U", "D", "P", "T", "S", "B", "C", "K") or out == "PANIC":
+            fresh_dump = None
         if t in ("A", "U"):
             q, mid, data = unhex(f[4]), int(f[1]), int(f[2])
             if t == "A":
@@ -428,8 +433,21 @@ def judge_msg(c):
                 for o in owners:
                     relayed.setdefault(o, i)
         must = [(q, mid) for (q, mid) in relayed if (q, mid) not in del_req and (q, mid) not in purged_after]
+        if t == "L" and fresh_dump is not None:
+            q = unhex(f[1])
+            own = sum(1 for (q2, mid) in first_add if q2 == q and doc_msg_key(q2, mid).hex() in fresh_dump)
+            got = [a[2][0] for a in atoms if a[0] == 6]
+            if got and got[0] != own:
+                fails.append(dict(pos=i, clause="length", what="%s says %d, the engine holds %d messages of %r" % (op, got[0], own, q), triggers=trig(q)))
+        if t == "F" and fresh_dump is not None:
+            q, mid = unhex(f[1]), int(f[2])
+            if mid < (1 << 63) and (q, mid) in first_add and doc_msg_key(q, mid).hex() in fresh_dump:
+                ids = [a[2][0] for a in atoms if a[0] == 4]
+                if not ids or ids[0] != mid:
+                    fails.append(dict(pos=i, clause="from", what="%s starts at a stored id but lists %s (the stored id itself must come first)" % (op, ids), triggers=trig(q)))
         if t == "DUMP":
             keys = {a[1][0] for a in atoms if a[0] == 8}
+            fresh_dump = keys
             for (q, mid) in del_flushed:
                 # (ids are unique per message in the broker: a copy Added twice, or Updated before it was Added, is outside the statement)
                 if doc_msg_key(q, mid).hex() in keys and not bunt and add_count.get((q, mid), 0) <= 1 and first_is_add.get((q, mid)):
@@ -663,12 +681,14 @@ def run_msg_pipeline(res, prop, props_v, checker, clauses, plan, iso=False, corp
         res.cov["traces_validated_against_impl"] += len(cases) - (len(bad) if bad else 0)
         res.cov["judge_failures_attributed_to_known_findings"] = res.cov.get("judge_failures_attributed_to_known_findings", 0) + known_hits
         res.cov["exhaustive"] = False
-        unrec = [f for f, s in st.items() if s.get("status") != "ok"]
-        if unrec:
-            res.notes.append("translator did not recognise %s: the property stands on the hand model + correspondence" % unrec)
-        if pr["ok"] and bad == [] and not new:
+        unrec = ["%s (%s)" % (f, s.get("detail", s.get("status"))) for f, s in st.items() if s.get("status") != "ok"]
+        if pr["ok"] and bad == [] and not new and not unrec:
             return
         what = []
+        if unrec:
+            # an unrecognised source shape of a translated function is never a silent fallback: the generated part of the
+            # model no longer provably describes the source
+            what.append("translator does not recognise the source shape: %s" % "; ".join(unrec)[:600])
         if not pr["ok"]:
             what.append("proof obligation no longer checks: %s: %s" % (pr.get("failed_file"), pr.get("error", "")[:400]))
         if bad:
